@@ -93,4 +93,38 @@ theorem C07_text_compaction_witness_one_batch :
   rw [C07_text_result_eq_isort]
   decide +kernel
 
+/-! ## why no single-batch test can notice: compaction to `cap ≥ k` entries is invisible in the next `result()` -/
+
+/-- for every well-formed state: the top `k` of the compacted state is the top `k` of the state (`k ≤ cap`) -/
+theorem C07_text_compaction_exact_one_state (cap k : Nat) (hk : k ≤ cap) (s : FreqState Str) (hs : s.WF) :
+    ((compact cap s).result strLe).take k = (s.result strLe).take k := by
+  unfold compact
+  split
+  · have hrows : (FreqState.mk (((s.result strLe).take cap).map fun r => (r.1, get s.counter r.1)) s.count).rows
+        = (s.result strLe).take cap := by
+      simp only [FreqState.rows, List.map_map]
+      conv => rhs; rw [← List.map_id ((s.result strLe).take cap)]
+      apply List.map_congr_left
+      intro r hr
+      have hr' : r ∈ s.rows := (List.mergeSort_perm _ _).mem_iff.mp (List.mem_of_mem_take hr)
+      simp only [FreqState.rows, List.mem_map] at hr'
+      obtain ⟨kv, hkv, rfl⟩ := hr'
+      have := ((mem_iff_get s.counter hs kv.1 kv.2).mp hkv).2
+      simp [this]
+    have hsorted : ((s.result strLe).take cap).Pairwise (fun a b => rowLe strLe a b = true) :=
+      (pairwise_sort strLe_keyOrder s.rows).sublist (List.take_sublist _ _)
+    show (List.mergeSort (FreqState.mk _ s.count).rows (rowLe strLe)).take k = _
+    rw [hrows, ← eq_sort_of_sorted_perm strLe_keyOrder hsorted (List.Perm.refl _), List.take_take,
+      Nat.min_eq_left hk]
+  · rfl
+
+/-- hence a compacting accumulator fed ONE batch reports exactly what the real accumulator reports, for every
+configuration, every `c ≥ 1` and every batch: the defect needs at least two batches -/
+theorem C07_text_compaction_exact_one_batch (cfg : NGramCfg) (c : Nat) (hc : 1 ≤ c) (b : List Str) :
+    (Metric.ngrams cfg).result (feedCompact cfg c [b])
+      = (Metric.ngrams cfg).result ((topK cfg).feed [b]) := by
+  have hk : cfg.k ≤ c * cfg.k := Nat.le_mul_of_pos_left _ hc
+  exact C07_text_compaction_exact_one_state (c * cfg.k) cfg.k hk _
+    (FreqState.wf_merge _ FreqState.wf_empty)
+
 end MlModel.C07
